@@ -39,7 +39,7 @@ def origin_call(an, l, depth=0):
     b, i, kind, node = sd
     if kind == 'call':
         n = callee_name(node)
-        if n.endswith('Try>::branch') or n.endswith('::map_err') or n.endswith('Result::<T, E>::or') or n.endswith('::ok_or') or n.endswith('Option::<T>::ok_or'):
+        if n.endswith('Try>::branch') or n.endswith('::map_err') or n.endswith('Result::<T, E>::or') or n.endswith('::ok_or') or n.endswith('Option::<T>::ok_or') or n == 'std::result::Result::<T, E>::ok':
             a = node['args'][0]
             if is_place(a) and not a['pl']['p']:
                 r = origin_call(an, a['pl']['l'], depth + 1)
@@ -62,6 +62,112 @@ def success_payload(an, l):
     if ty.startswith('std::option::Option'):
         return '(_%d as Some).0' % l
     return None
+
+
+# ---- failure postconditions: what must have been the case for a call to return its failure variant
+def fail_get(an, cb, t):
+    base, rng = t['args'][0], t['args'][1]
+    L = _len_of_arg(an, base)
+    if L is None:
+        return None
+    if is_place(rng):
+        agg = an._range_agg(rng)
+        if agg:
+            kind, ops = agg
+            if kind == 'RangeFrom':
+                return [[lt(L, ops[0])]]
+            if kind == 'Range':
+                return [[lt(ops[1], ops[0])], [lt(L, ops[1])]]
+            if kind == 'RangeTo':
+                return [[lt(L, ops[0])]]
+            return None
+    ix = an.ev_op(rng)
+    ty = (rng['pl'].get('ty') or an.fn.local_ty(rng['pl']['l'])) if is_place(rng) else rng.get('ty', '')
+    if ix is not None and ty == 'usize':
+        return [[le(L, ix)]]
+    return None
+
+
+def fail_try_into_array(an, cb, t):
+    # <&[T] as TryInto<&[T; N]>>::try_into fails exactly when the slice length is not N
+    fn = an.fn
+    m = re.search(r'Result<&\[[^;\]]+; (\d+)\]', fn.local_ty(t['dest']['l']) if not t['dest']['p'] else '')
+    a = t['args'][0]
+    if not m or not is_place(a) or not fn.local_ty(a['pl']['l']).startswith('&['):
+        return None
+    L = _len_of_arg(an, a)
+    n = int(m.group(1))
+    return [[le(L, lin(c=n - 1))], [le(lin(c=n + 1), L)]]
+
+
+def fail_checked(op, ty):
+    def f(an, cb, t):
+        a, b = an.ev_op(t['args'][0]), an.ev_op(t['args'][1])
+        if a is None or b is None:
+            return None
+        from qv.bounds import UMAX
+        return [[lt(lin(c=UMAX[ty]), add(a, b))]] if op == 'add' else [[lt(a, b)]]
+    return f
+
+
+FAILS = {
+    'core::slice::<impl [T]>::get': fail_get,
+    '<T as std::convert::TryInto<U>>::try_into': fail_try_into_array,
+}
+for _ty in ('u8', 'u16', 'u32', 'u64', 'usize'):
+    FAILS['core::num::<impl %s>::checked_add' % _ty] = fail_checked('add', _ty)
+    FAILS['core::num::<impl %s>::checked_sub' % _ty] = fail_checked('sub', _ty)
+
+
+def fail_alternatives(an, site_block, site_idx):
+    """For every branch edge dominating the site that selects the FAILURE variant (None / Err / Break) of a value produced
+    (through `?`, .ok(), map_err, ok_or, moves) by a call with a known failure postcondition: the disjunction of reasons
+    that call can have failed.  -> [(description, [fact list, ...])]; an edge whose call is not understood contributes
+    nothing (the caller then knows less, never something false)."""
+    fn = an.fn
+    out = []
+    for s in fn.doms(site_block):
+        preds = [p for p in fn.preds()[s] if p in fn.idom() and not fn.dominates(s, p)]
+        if len(preds) != 1:
+            continue
+        p = preds[0]
+        t = fn.blocks[p]['term']
+        if t['k'] != 'switch' or not is_place(t['op']) or t['op']['pl']['p']:
+            continue
+        sd = fn.single_def(t['op']['pl']['l'])
+        if not sd or sd[2] != 'assign' or sd[3]['rv']['k'] != 'discr' or sd[3]['rv']['pl']['p']:
+            continue
+        bl = sd[3]['rv']['pl']['l']
+        ty = fn.local_ty(bl)
+        if not ty.startswith(('std::option::Option', 'std::result::Result', 'std::ops::ControlFlow')):
+            continue
+        fail = 0 if ty.startswith('std::option::Option') else 1
+        vals = [v for v, tb in t['targets'] if tb == s]
+        if vals != [fail] and not (t['otherwise'] == s and not vals and sorted(v for v, tb in t['targets']) == [1 - fail]):
+            continue
+        oc = origin_call(an, bl)
+        if not oc:
+            continue
+        cb, ct = oc
+        f = FAILS.get(callee_name(ct))
+        if not f:
+            continue
+        saved = getattr(an, '_site', None)
+        an._site = (cb, None)
+        try:
+            alts = f(an, cb, ct)
+        finally:
+            an._site = saved
+        if not alts:
+            continue
+        atoms = set()
+        for alt in alts:
+            for c in alt:
+                atoms |= an.mutable_atoms(c) | {a for a in c if a.startswith(('P:', 'len:'))}
+        if atoms and not an.stable_between(atoms, ('def', cb, None), (site_block, site_idx)):
+            continue
+        out.append(('%s failed' % callee_name(ct).split('::')[-1], alts))
+    return out
 
 
 def post_facts(an, site_block, site_idx):
@@ -331,7 +437,20 @@ def tot_tsig_len(bound):
     return f
 
 
+def tot_split_at(an, b, t, res):
+    # (a, b) = s.split_at(mid)  (returns only if mid <= len(s)):  len(a) = mid, len(a) + len(b) = len(s)
+    L = _len_of_arg(an, t['args'][0])
+    mid = an.ev_op(t['args'][1])
+    if L is None or mid is None or t['dest']['p']:
+        return []
+    d = t['dest']['l']
+    la = lin(an.atom_len({'l': d, 'p': [{'f': 0, 'n': '0', 'ty': ''}, 'deref'], 'ty': ''}))
+    lb = lin(an.atom_len({'l': d, 'p': [{'f': 1, 'n': '1', 'ty': ''}, 'deref'], 'ty': ''}))
+    return eq(la, mid) + eq(add(la, lb), L) + [le(mid, L)]
+
+
 POSTS_TOTAL = {
+    'core::slice::<impl [T]>::split_at': tot_split_at,
     'message::tsig::PreparedTsigRr::unsigned_len': tot_tsig_len(255 + 255 + 26 + 6),
     'message::tsig::PreparedTsigRr::signed_len': tot_tsig_len(255 + 255 + 26 + 6 + 64),
     'name::Name::wire_repr': tot_wire_repr,
